@@ -334,7 +334,7 @@ def Iter.rand (it : Iter) (len : Nat) : Nat × Iter :=
 def trimS (s : String) : String := String.ofList (trimSpace s.toList)
 
 /-- `strings.ToLower` on ASCII text, character by character (reduces in the kernel, unlike `String.toLower`) -/
-def lowerS (s : String) : String := String.ofList (s.toList.map Char.toLower)
+@[irreducible] def lowerS (s : String) : String := String.ofList (s.toList.map Char.toLower)
 
 /-- `calcIndex`: a non-numeric index other than next/rand/last is an error, then an empty segment is an error -/
 def calcIndex (indexStr : String) (seg : String) (len : Nat) (id : Nat) (it : Iter) : Outcome (Nat × Iter) :=
@@ -405,7 +405,7 @@ def dropDotPrefix (s : String) : String :=
 
 /-- `mp.GetMapValue(current, path, iter)` (for a non-nil `current`) -/
 def getMapValue (vars : List (String × Val)) (path : String) (id : Nat) (it : Iter) : Outcome (Val × Iter) :=
-  walk id ((dropDotPrefix path).splitOn ".") vars "" it
+  walk id ((splitOnC '.' (dropDotPrefix path).toList).map String.ofList) vars "" it
 
 /-! ### template functions in preprocessor mappings (`templater.ParseFunc`, `ExecTemplateFuncWithVariables`) -/
 
